@@ -57,7 +57,7 @@ PROPS = {
         lean=["GolibsVerif.Props.C16"],
         seq=[dict(comp="xbin", args=["-focus", "C16"], stateless=True, decisive=lambda d: d["op"].startswith("mon C16") or "impl=panic" in d["detail"], ignore=lambda d: d["op"].startswith("mon C15"))],
         rule="cases = groups of Unmarshal calls on arbitrary bytes: every input of <= 2 bytes (quick: thinned), 3-4 byte inputs over {00,01,02,03,7f,80,81,ff}, length prefixes within +-12 of 2^31, 2^32, 2^62, 2^63, 2^64 followed by 0..20 body bytes, over-long varints of 9..14 continuation bytes, truncated and bit-flipped valid encodings; non-trivial = input that is not a valid encoding; every call runs under recover",
-        assumptions=["cap(buf) = len(buf) for the buffers handed to the decoders"],
+        assumptions=["bytes behind len(buf) (spare capacity of a window into a larger buffer) are not part of the value-level model: a Go-side monitor decodes every input also as such a window and requires the same answer"],
         trusted=["modelled, not verified: Go slice-expression bounds checks and int(uint64) conversion (two's complement)"],
         explanation="C16.total / in_bounds proved for every byte list of any length; C16.total_fails_legacy is the kernel-checked witness that the pre-repair length test panics",
     ),
@@ -103,8 +103,12 @@ PROPS = {
     "C17": dict(
         lean=["GolibsVerif.Props.C17"],
         seq=[dict(comp="blk", decisive=lambda d: d["op"].startswith("mon C17") or (not d["op"].startswith("hdr")))],
+        go_cmds=("seq", "conc"),
+        # concurrent callers: real goroutines parked right before the allocator's lock; the calls, in the order of
+        # their locked sections, are replayed through the SAME sequential model (results, Available, header bytes)
+        conc=[dict(comp="blkconc", driver="blk", decisive=lambda d: d["op"].startswith("mon C17") or (not d["op"].startswith("hdr")))],
         rule="cases = (geometry, buffer size, fit flag, preset header bytes, op sequence): 22 block sizes (negative, 0, non-powers of two, powers of two up to 2048, page size +-1, multiples of the page size) x 7 small buffer sizes + exact-fit/oversized/too-small buffers x fit; exhaustive sequences to depth 5 (quick) / 6 (thorough) over {ArrangeBlock, FreeBlock(first, second, last, out of range), Block, reopen-on-a-copy, Available} on bs=1 (1 and 2 segments, 4 preset header contents) and bs=2; random runs of 20..300 ops on bs in {1,2,4,8} with 1..3 segments; buffers larger than 200 kB run with Go-side monitors only; non-trivial = an allocation followed a free, a segment boundary was crossed, the state was (re)opened with allocations present, or an invalid geometry was rejected; distinct by hash of (header, ops)",
-        assumptions=["the Buffer is the in-memory implementation (a memory-mapped file behaves the same as far as the allocator can tell; mmap persistence is the kernel)", "fewer than 2^31 blocks (available is an int32)", "single caller in the correspondence run; concurrent callers are serialised by the allocator's mutex"],
+        assumptions=["the Buffer is the in-memory implementation (a memory-mapped file behaves the same as far as the allocator can tell; mmap persistence is the kernel)", "fewer than 2^31 blocks (available is an int32)", "concurrent callers: the sequential model is applied to the calls in the order of their locked sections (harness: callers parked right before the lock + free-running goroutines); atomicity of a locked section is Go's sync.Mutex"],
         trusted=["modelled, not verified: Buffer(offs,size) slicing, os.Getpagesize() (its value is passed to the model), sync/atomic counter"],
         explanation="C17.refines_set (outputs equal to the set model for every op sequence from any opened allocator: least free index handed out, ErrExhausted iff full, Available exact, reopen reproduces the set), geometry_valid_iff_accepted, ranges_disjoint, reopen_same_state, data_untouched; legacy_accepts_invalid is the kernel-checked witness of D4",
     ),
@@ -228,14 +232,14 @@ PROPS = {
         explanation="C09.single_flight (at most one creator per key; in-flight table exact), size_le_cap, step_simulates (every step is invisible or is the linearization point of one call and acts exactly like the sequential Lru.EC operation — forward simulation; with LinThm this gives linearizability), accounting (created = deleted + resident + unpublished at every state), waiter_enabled",
     ),
     "C13": dict(
-        lean=["GolibsVerif.Props.C13", "GolibsVerif.Props.C13Exec", "GolibsVerif.Props.C12"],
+        lean=["GolibsVerif.Props.C13", "GolibsVerif.Props.C13Live", "GolibsVerif.Props.C13Exec", "GolibsVerif.Props.C12"],
         seq=[],
         go_cmds=("seq", "conc"),
         conc=[dict(comp="pool", driver="pooltrace", decisive=lambda d: d["op"].startswith("mon C13"))],
         rule="cases = executions of the REAL package-level dispatcher under a virtual clock and harness-controlled sleep timers (time.Now / time.NewTimer of the CURRENT timeout.go redirected by the instrumenter), pool limits {1,2,3,10}, idle timeouts {5,20,100} ms: scripts of 4..16 actions from {Call with delay 0/1/3/10/50/500 ms (far and near futures, a near one while the dispatcher sleeps towards a far one), a burst of limit+2 futures due at once, Cancel of a random future (incl. the head), advance time by 1/2/5/11/idle+1/60 ms, let an expired sleep timer fire}; then time is advanced past every fire time and expired timers are served fairly until every live future has started, then idle rounds until the pool has wound down to zero watchers; every locked section of the watcher loop (with watchers / heap length / wake tokens seen under the lock), every sleep with its deadline, every callback start and every exit become trace events replayed by the Lean driver through Tmo.Pool.Exec; non-trivial = an arrival preceded the current head, or a burst; distinct by hash of the event list",
         assumptions=["fair scheduling of runnable goroutines (liveness is proved as 'someone is responsible' + enabledness, not as a temporal formula)", "fire times are pairwise distinct in the trace runs (ties are covered by the C12 heap correspondence)", "callbacks return promptly (a blocked callback occupies its watcher)", "a wake token sent while a watcher is blocked in select is consumed at once (the model allows it to linger: over-approximation)"],
         trusted=["modelled, not verified: Go select / timer / buffered channel semantics, goroutine spawn; the heap is abstracted to 'head = a pending future with the least fire time' (C12.root_is_min)", "C13Exec.handle_sound / replay_reach: every accepted trace is a Tmo.Pool.Step execution"],
-        explanation="C13 theorems on the pool transition system (see Props/C13.lean: watchers_exact, someone_responsible / no_stuck_state or their stated partial forms, restart, burst_spawns, wind_down, started_were_due)",
+        explanation="C13 theorems on the pool transition system (see Props/C13.lean: watchers_exact, someone_responsible / no_stuck_state or their stated partial forms, restart, burst_spawns, wind_down, started_were_due; Props/C13Live.lean: internal_step_decreases / internal_runs_bounded (no livelock of the watchers at a fixed clock), quiescent_nothing_due, every_due_future_starts (every maximal run of watcher steps ends with every due future started, no fairness assumption))",
     ),
 }
 
@@ -264,7 +268,7 @@ MANIFEST_TEXT = {
 }
 
 MANIFEST_TEXT.update({
-    "C13": _t("Lean proofs on a transition system of the dispatcher's worker pool (watcher loop decisions, wake tokens, spawn/exit, discrete time): the watcher counter is exact, whenever a future is pending some watcher is responsible for it (awake, sleeping no longer than until its fire time, or about to receive a wake token) so a due future can always be served, a Call with no watcher starts one, a due backlog spawns, idle watchers exit; tied to the code by replaying real executions of the dispatcher under a virtual clock with harness-controlled timers through the executable model (proved sound). Lateness bounds and eventual firing rest on fair scheduling (not mechanised)", "Lean 4 invariant/enabledness proofs over a transition system + trace refinement of real executions under a virtual clock"),
+    "C13": _t("Lean proofs on a transition system of the dispatcher's worker pool (watcher loop decisions, wake tokens, spawn/exit, discrete time): the watcher counter is exact, whenever a future is pending some watcher is responsible for it (awake, sleeping no longer than until its fire time, or about to receive a wake token) so a due future can always be served, a Call with no watcher starts one, a due backlog spawns, idle watchers exit; the watcher steps strictly decrease a measure at a fixed clock, so every schedule of the watchers reaches within a bounded number of steps a state in which every due future has been started (inevitability without a fairness assumption); tied to the code by replaying real executions of the dispatcher under a virtual clock with harness-controlled timers through the executable model (proved sound). Lateness in wall-clock terms rests on the Go scheduler running the watchers (not mechanised)", "Lean 4 invariant/enabledness proofs over a transition system + trace refinement of real executions under a virtual clock"),
     "C09": _t("Lean proofs on the N-caller transition system of ecache.go: single-flight (at most one creation per key in progress, in-flight table exact), size <= capacity, step-wise forward simulation to the sequential LRU model (results, evictions and callbacks of each linearization point equal the sequential operation's), exact accounting of created/deleted/resident/unpublished values; tied to the code by replaying real executions (instrumented critical sections, gated create function, delete callbacks) through the executable model, proved sound w.r.t. the step relation", "Lean 4 invariant + forward-simulation proofs over an N-process transition system + trace refinement of real executions"),
     "C07": _t("Lean proofs on a small-step model of inmem's WaitForVersionChange + mutators (any number of waiters, keys, writers): verdict soundness, no lost wake-up (a waiter parked on an open channel implies the record still has the awaited version and the channel is the key's current waiter record), exact waiter counts, empty table when nobody waits, isolation of a cancelling waiter; tied to the code by replaying the real critical sections (instrumented lock + goroutine attribution + table snapshots) through the executable model, proved sound w.r.t. the step relation", "Lean 4 inductive-invariant proofs over a small-step model + trace refinement of real critical sections"),
     "C02": _t("Lean: generic theorem that an object whose operations each take effect in one atomic step is linearizable in step order (real-time respecting, sequentially legal); contract theorems for all histories (fresh versions, at most one CAS winner per version, one winning creator, losers change nothing); in-memory backend: regenerated skeleton fact (each method = one lock region) + instrumented critical-section order replayed by the Lean driver; Redis backend: theorem C02Redis.linearizable — the command-level concurrent model of redis.go (any number of clients, any interleaving of SETNX/GET/SET/MSET/MGET/DEL/WATCH/MULTI-EXEC, unboundedly many lost races and retries) refines the atomic-step system over the contract — tied to redis.go + go-redis + miniredis by replaying real command-level executions (every command parked and released one at a time by a go-redis hook) through the model; free-running Redis histories additionally get a Lean-validated linearization witness. No expiries in the concurrent runs", "Lean 4 linearizability proofs (generic atomic-step theorem + forward simulation of the Redis command-level model) + trace refinement of real command-level executions"),
